@@ -176,13 +176,14 @@ def rule_publication(R):
         okc = len(cors) == 1
         if okc:
             d = b.operand_term(cors[0].args[1])
+            d = roles.expand_getters_deep(f, d)    # `self.correlation_data()` instead of `self.correlation_data.as_deref()`
             r, n = chain(d, extra=extra)
             okc = r == ("param", "self") and "correlation_data" in n and n[-2:] == ["@Some", "0"]
             # on the Some edge the data is attached on every path
             some_t = None
             for sbb in b.switches:
                 si = b.switch_info(sbb)
-                rr, nn = chain(si["subject"], extra=extra)
+                rr, nn = chain(roles.expand_getters_deep(f, si["subject"]), extra=extra)
                 if si["enum"] == "core::option::Option" and "correlation_data" in nn and si["edges"].get("Some") is not None:
                     some_t = si["edges"]["Some"]
             okc = okc and some_t is not None and b.must_pass([some_t], b.returns, via_blocks=[cors[0].bb])[0]
@@ -237,6 +238,34 @@ def clause_correlation_kept(R, prefix):
          "attaching user properties to a correlated publication keeps the correlation entry and installs the new list", where=wp.span)
 
 
+def _checked_whole_extend(f, b, c):
+    """`vec.extend_from_slice(src)` on a heapless Vec whose result is checked (`?` / match with the error returned) and whose
+    source is a whole value (no sub-slice): all-or-nothing, so it cannot shorten the copy"""
+    if not (c.path or "").startswith("heapless::vec::") or len(c.args) < 2:
+        return False
+    srct = b.operand_term(c.args[1])
+    if any(isinstance(x, tuple) and (is_call(x, "Index::index", "index", "get", "split_at", "take") or (x[0] == "agg" and "Range" in (x[2] or "")))
+           for x in walk(srct)):
+        return False
+    res = [si for si in b.result_switches(lambda x, c=c: peel(x)[0] == "call" and peel(x)[1] == c.bb)]
+    if not res:
+        return False
+    for si in res:
+        et = si["edges"].get("Err")
+        if et is None:
+            return False
+        # every path from the Err edge returns an Err
+        from .. import paths as _paths
+        vals = []
+        for lf in _paths.explore(b, et, lambda t_: False, lambda b_, x_: False, max_paths=200):
+            if lf["kind"] == "return":
+                vals.append(_paths.value_on_path(b, [si["bb"]] + lf["path"], 0))
+        if not vals or not all(v is not None and ((peel(v)[0] == "agg" and peel(v)[3] == "Err") or
+                                                  is_call(peel(v), "core::ops::FromResidual::from_residual", "from_residual")) for v in vals):
+            return False
+    return True
+
+
 def rule_owned(R):
     f = R.f
     to = roles.method(f, "publication::ResponseTarget", "to_owned")
@@ -244,12 +273,16 @@ def rule_owned(R):
     reach = f.reachable_bodies([to.name])
     bad = []
     conv = 0
+    extends = []
     for n in reach:
         b = f.bodies[n]
         for c in b.calls.values():
             if c.bb not in b.reachable:
                 continue
             nm = (c.path or "").rsplit("::", 1)[-1]
+            if nm == "extend_from_slice" and _checked_whole_extend(f, b, c):
+                extends.append(c)
+                continue
             if nm in ("truncate", "split_at", "get", "get_unchecked", "index", "from_utf8_unchecked", "push_str", "extend_from_slice",
                       "from_slice", "chars", "take") or "Index" in (c.path or ""):
                 bad.append((c.path, c.span))
@@ -271,12 +304,21 @@ def rule_owned(R):
                 nones_ = [a for a in alts_ if a[0] == "agg" and a[3] == "None"]
                 if somes_ and len(somes_) + len(nones_) == len(alts_):
                     return all(fallible(a[5][0], src) for a in somes_)
+            # `let mut v = Vec::new(); v.extend_from_slice(src).map_err(..)?; Some(v)`: heapless refuses the whole slice when it
+            # does not fit (nothing is copied), and the refusal is handed on
+            if t[0] == "call" and (t[2] or "").startswith("heapless::vec::") and (t[2] or "").endswith("::new"):
+                for c_ in extends:
+                    a0 = peel(to.operand_term(c_.args[0]))
+                    while a0[0] in ("ref", "deref"):
+                        a0 = peel(a0[1])
+                    if a0[0] == "call" and a0[1] == t[1] and any(x[0] == "field" and x[2] == src for x in walk(to.operand_term(c_.args[1]))):
+                        return True
             r = roles.ok_payload_source(t)   # the Result whose Ok payload is stored (through `?`, match, map_err)
             return r is not None and is_call(r, "try_into", "try_from", "transpose") and \
                 any(is_call(x, "try_into", "try_from") for x in walk(r) if x[0] == "call") and \
                 any(x[0] == "field" and x[2] == src for x in walk(t))
         ok = fallible(fl["topic"], "topic") and fallible(fl["correlation_data"], "correlation_data")
-    R.ob("owned/fallible", ok and conv >= 1,
+    R.ob("owned/fallible", ok and (conv + len(extends)) >= 1,
          "both owned copies are made with TryFrom/TryInto and `?` on the mapped error (a target that does not fit is an "
          "error, never a shortened copy)", where=to.span)
     # the mapped error is BufferTooSmall
